@@ -199,6 +199,12 @@ AppendOnly ==
   [][ \/ last'.op = "reset"
       \/ (IsPrefixOf(mem, mem') /\ rd' >= rd /\ (last'.op \in {"encode", "write", "stale"} => rd' = rd)) ]_vars
 
+(* refinement of the FIFO channel (Channel.tla) *)
+ChanView == [i \in 1..Len(q) |-> q[i].vp]
+GotView == IF last.op = "decode" THEN last.vpost ELSE NilV
+Ch == INSTANCE Channel WITH chan <- ChanView, got <- GotView
+ChannelRefinement == Ch!CSpec
+
 Export == nops = MaxOps => PrintT(<<"BEHAVIOUR", ToJson(hist)>>)
 ViewNoHist == <<mem, rd, obj, reg, frames, q, lead, nops, last>>
 =============================================================================
